@@ -163,3 +163,46 @@ PROPS["C12"] = pbt(
     thorough={"cases": 200000},
     floors={"masked_member": 0.06, "null_or_empty_dir_arg": 0.05, "global_postfix_list": 0.08, "three_layers": 0.25},
 )
+
+PROPS["C16"] = pbt(
+    "pbt_c16", "pbt_c16.cpp",
+    rule=("trees of C01 (<=5 consulted files) x per consulted file (owner matching/foreign, group matching/foreign, "
+          "regular/symlink; links and their targets get the same ownership) x active subset of {required owner in "
+          "{0,4242}, required group in {0,4343}, no-symlink} x entry point in {readConfig, readConfigWithCallback, "
+          "readDirs, readDirsWithCallback, readDirsHistory, readFile}; every case is read twice: restricted, then "
+          "after econf_reset_security_settings(). Oracle: the first consulted file (model order) violating an active "
+          "rule decides the code (any of the rules it violates), nothing is handed back; without offender and after "
+          "the reset the C01 result. non-trivial = a rule is active and the offender is not the first consulted file; "
+          "distinct = tree shape + entry point + rule set + offender index"),
+    technique="property-based testing with a first-offender model over generated ownership/symlink assignments (chown as root), rapidcheck",
+    level_text=("generated search over ownership/symlink assignments on generated trees, model = first offending "
+                "consulted file decides; 15k (quick) / 400k (thorough) cases, two reads each; requires root for the "
+                "foreign-owner half (evidence says so if not)."),
+    level_note="trusts the lookup model for the consultation order; runs as root in this sandbox (chown/lchown)",
+    quick={"cases": 15000},
+    thorough={"cases": 400000},
+    floors={"has_offender": 0.30, "offender_is_dropin": 0.15, "offender_is_masked": 0.004, "symlink_rule": 0.30,
+            "offender_not_first": 0.08},
+)
+
+PROPS["C17"] = pbt(
+    "pbt_c17", "pbt_c17.cpp",
+    rule=("conventional files (DESIGN 5.1; non-blank and blank-only delimiter sets, all comment sets) with comment "
+          "blocks before keys (attached and detached), trailing comments, multi-line values, sections; read by "
+          "absolute name and by names relative to the working directory (f, ./f, sub/../f). Oracle from the AST: "
+          "file, line number of the entry's last physical line, comment_before (validity predicate: sub-sequence of "
+          "the comment lines since the previous entry ending with the directly preceding block), comment_after "
+          "(exact for single-line entries, non-empty items for multi-line ones), values (blank-trimmed lines, a "
+          "quoted value one item), econf_getPath (absolute; '' for a merge result). non-trivial = comment block of "
+          ">=2 lines, a multi-line value, or a trailing comment on a continuation line; distinct = file skeleton + "
+          "naming mode"),
+    technique="property-based testing: grammar-generated files with provenance carried by the AST, rapidcheck",
+    level_text=("generated search; the AST records for every entry its physical lines, the comment lines before it "
+                "and the trailing comment of each of its lines, so every field of the extended value has a known "
+                "expected value. 100k (quick) / 3M (thorough) files."),
+    level_note="trusts the grammar printer; detached comment blocks may or may not be carried along (property leaves it open)",
+    quick={"cases": 100000},
+    thorough={"cases": 3000000},
+    floors={"relative_name": 0.20, "detached_comment_block": 0.08, "trailing_comment_on_continuation": 0.03,
+            "comment_block_2plus": 0.08, "continuation": 0.10},
+)
